@@ -219,7 +219,7 @@ func runC05(e *Env) error {
 		}
 	})
 	if e.Replay == "" {
-		c05Renames(e)
+		c05Renames(e, pool)
 		c05CLI(e)
 	}
 	return nil
@@ -430,6 +430,12 @@ func c05Model(pool *hx.Pool, mt *schema.ModifyTable, plan *migrate.Plan, add fun
 	for i, col := range mt.T.Columns {
 		idx[col.Name] = i + 1
 	}
+	// names that exist only in the old table (sources of renamed columns) get numbers of their own
+	for _, ch := range mt.Changes {
+		if rc, ok := ch.(*schema.RenameColumn); ok && idx[rc.From.Name] == 0 {
+			idx[rc.From.Name] = len(idx) + 1
+		}
+	}
 	for _, col := range mt.T.Columns {
 		m := map[string]any{"name": idx[col.Name], "not_null": !col.Type.Null, "has_default": col.Default != nil, "change": "none"}
 		for _, a := range col.Attrs {
@@ -447,6 +453,11 @@ func c05Model(pool *hx.Pool, mt *schema.ModifyTable, plan *migrate.Plan, add fun
 				if ch.To.Name == col.Name {
 					m["change"] = "modified"
 					m["null_or_default"] = ch.Change.Is(schema.ChangeNull | schema.ChangeDefault)
+				}
+			case *schema.RenameColumn:
+				if ch.To.Name == col.Name {
+					m["change"] = "renamed"
+					m["from"] = idx[ch.From.Name]
 				}
 			}
 		}
